@@ -6,13 +6,15 @@ from ceremony import *
 PROP = "C04"
 COQ_TARGETS = ceremony.COQ_TARGETS
 HARNESS_BINS = ceremony.HARNESS_BINS
+replay = ceremony.replay
 
 
 def product(run):
-    """the finite product of the quantifier, enumerated completely"""
+    """the finite product of the property's quantifier, enumerated completely"""
     rng = run.rng
     scenarios, meta = [], []
     user_answers = [{"presence": p, "verification": v} for p in (False, True) for v in (False, True)] + [{"err": 0x27}, {"err": 0x2F}]
+    stores = ("memory", "ref") if run.tier == "quick" else ("memory", "ref", "option", "arc_mutex_memory", "arc_rwlock_memory", "mutex_memory", "rwlock_memory")
     for kind in ("make_credential", "get_assertion"):
         for rk, up, uv in itertools.product((False, True), repeat=3):
             for verif in (None, False, True):
@@ -20,13 +22,13 @@ def product(run):
                     for ans in user_answers:
                         for pin in (False, True):
                             for present in (False, True):
-                                for store in ("memory", "ref"):
+                                for store in stores:
                                     cid = bytes([7] * 16)
                                     content = [mk_passkey(rng, "example.com", cred_id=cid, counter=3, keyidx=0)] if present else []
                                     if kind == "make_credential":
-                                        op = {"op": kind, "req": mc_req(rng, rk=rk, up=up, uv=uv, pin_auth=pin, exclude=[cid])}
+                                        op = {"op": kind, "req": mc_req(rng, rk=rk, up=up, uv=uv, pin_auth=pin, exclude=[cid], cdh=b"\x11" * 32, user_id=b"\x05" * 8)}
                                     else:
-                                        op = {"op": kind, "req": ga_req(rng, rk=rk, up=up, uv=uv, pin_auth=pin, allow=[cid])}
+                                        op = {"op": kind, "req": ga_req(rng, rk=rk, up=up, uv=uv, pin_auth=pin, allow=[cid], cdh=b"\x11" * 32)}
                                     scenarios.append(scenario(store_kind=store, content=content, config={"counter": True},
                                                               user={"verif_enabled": verif, "presence_enabled": presence_cap, "script": [ans]},
                                                               ops=[op]))
@@ -34,21 +36,47 @@ def product(run):
     return scenarios, meta
 
 
+def consent_missing(sc, obs):
+    o = sc["ops"][0]["req"]["opts"]
+    for e in obs["log"]:
+        if e["c"] == "check" and "ok" in e["r"]:
+            p, v = e["r"]["ok"]
+            if (p or not o["up"]) and (v or not o["uv"]):
+                return False
+    return True
+
+
+def non_disclosure(scenarios, outs):
+    """while consent is missing the outcome is the same whether or not a matching credential exists:
+    scenarios that differ only in the store content are paired"""
+    groups = {}
+    for sc, out in zip(scenarios, outs):
+        if "ops" not in out or len(sc["ops"]) != 1:
+            continue
+        key = json.dumps([sc["config"], sc["user"], sc["ops"], sc["store"]["kind"]], sort_keys=True)
+        groups.setdefault(key, []).append((sc, out["ops"][0]))
+    fails = []
+    for key, lst in groups.items():
+        if len(lst) < 2:
+            continue
+        missing = [consent_missing(sc, ob) for sc, ob in lst]
+        if all(missing):
+            results = {json.dumps(ob["result"], sort_keys=True) for _, ob in lst}
+            if len(results) > 1:
+                fails.append({"kind": "outcome without consent depends on whether a matching credential exists",
+                              "scenario": lst[0][0], "other_scenario": lst[1][0], "observed": [ob["result"] for _, ob in lst]})
+        store_changed = [ob["store_after"] != sc["store"]["content"] and sc["store"]["kind"] in ("ref",) for sc, ob in lst if consent_missing(sc, ob)]
+        if any(store_changed):
+            fails.append({"kind": "store changed although consent is missing", "scenario": lst[0][0]})
+    return fails
+
+
 def check(run):
-    common.run_translator("status")
-    bad = common.hygiene_gate()
-    if bad:
-        raise common.Tie("hygiene gate: " + "; ".join(bad))
-    common.coq_build(COQ_TARGETS)
-    binary = common.harness_build("ceremony")
     scenarios, meta = product(run)
-    outs = ceremony.run_scenarios(binary, scenarios)
-    flat = ceremony.cases_of(scenarios, outs)
-    terms = [t for (_, _, _, _, t) in flat if t is not None]
-    res = common.coq_eval(PROP, ceremony.PREAMBLE, terms, ["agree"], shard=200)
-    print(len(terms), "cases; disagreements:", res["agree"][:10])
-    for i in res["agree"][:2]:
-        si, oi, op, obs, t = flat[i]
-        print(json.dumps(scenarios[si])[:1500]); print(json.dumps(obs)[:1500])
-    run.cov.update({"evaluations": len(terms), "distinct_nontrivial": len(set(meta)), "rule": "wip", "samples": [terms[0][:300]],
-                    "obligations": 1, "discharged": 1, "checker_cmd": "wip", "trusted_base": []})
+    ceremony.standard_check(
+        run, PROP, scenarios, meta, ["c04_ok"], pair_oracle=non_disclosure,
+        coq_files=["theories/Auth/Authenticator.v", "theories/Auth/C04Facts.v"],
+        rule="complete enumeration of operation x (rk,up,uv) x verification capability (None/Some false/Some true) x presence capability "
+             "x user answer (4 presence/verification results, 2 errors) x pin-auth x matching credential present/absent x store kind",
+        assumptions=["U2F operations have no consent step by design (presence is a caller-supplied argument): not quantified over here"])
+    run.cov["exhaustive"] = True
